@@ -22,10 +22,13 @@ LEVEL_TEXT = ("Partial. Unbounded proof: for every element tree (any depth and w
               "parser moves to the end of the chunk; any SEQUENCE of such chunks is decoded to exactly the sequence of its "
               "events, the parser's loop is the fold over them, and for the bytes of a whole document (header, pool, chunks) "
               "whose events resolve - through that pool - to the document-order events of a tree x, the parser returns x; "
-              "for every attribute-free, namespace-free element tree of any shape with any texts this holds without any "
-              "hypothesis (bytes -> exactly that tree). Not proved: the resolution of element starts with attributes "
-              "and namespaces (namespace map, prefixes, typed values of C27 lifted to attribute lists) - that is compared "
-              "with the code, and with the document description, on every run.")
+              "and end to end, without any hypothesis about the model: every element tree whose element and attribute names "
+              "are XML names as they stand - any shape and depth, any texts, any attributes in any namespace and of any value "
+              "type (the formatted value of C27, cleaned; repeated keys overwrite), any namespace declarations around the "
+              "root, either pool encoding, no resource map - is parsed from its bytes to exactly that tree. Not proved: "
+              "attribute names taken from the resource map and the system attribute table, names that need repair "
+              "(non-ASCII, leading digit, embedded prefix), comments, styled pools - these are modelled and compared with "
+              "the code, and with the document description, on every run.")
 LEVEL_NOTE = ("Trusted: Coq kernel; coq/Axml/PoolModel.v (StringBlock; malformed UTF-8 outside the model), "
               "coq/Axml/AxmlModel.v (AXMLParser/AXMLPrinter; names restricted to ASCII because of str.isalpha, comments and a "
               "second root outside the model, the namespace map as 'last declaration of a prefix wins', lxml's Element as a "
